@@ -921,8 +921,12 @@ func rpcGetEntryAndProof(ctx context.Context, li *logInfo, req *trillian.GetEntr
 	if err != nil {
 		return nil, li.toHTTPStatus(err), fmt.Errorf("backend GetEntryAndProof request failed: %s", err)
 	}
-	if err := li.issuanceChainService.FixLogLeaf(ctx, rsp.Leaf); err != nil {
-		return nil, http.StatusInternalServerError, fmt.Errorf("failed to fix log leaf: %v", rsp)
+	// The backend returns no leaf when the request lies beyond its current tree;
+	// the caller checks the tree size and the presence of the leaf afterwards.
+	if rsp.Leaf != nil {
+		if err := li.issuanceChainService.FixLogLeaf(ctx, rsp.Leaf); err != nil {
+			return nil, http.StatusInternalServerError, fmt.Errorf("failed to fix log leaf: %v", rsp)
+		}
 	}
 
 	return rsp, http.StatusOK, nil
